@@ -325,6 +325,15 @@ def build_units(tier: str) -> list[Unit]:
             else:
                 units.append(Unit(f"encode/{cname}/{tag}", encode_harness(cname, cls, alts)))
     units.append(Unit("db/insert_scan_result", db_harness))
+    import os
+    from pyvc import crosscheck
+    from .c01 import random_arg
+    n_x = 300 if tier == "quick" else 5000
+    sd = int(os.environ.get("VERIF_SEED", "0") or 0)
+    for kind in ("encode-responses", "parse-responses"):
+        units.append(Unit(f"engine-crosscheck/{kind}", crosscheck.codec_unit(
+            kind, service_module, response_classes, cs.param_alternatives, random_arg, n_x, sd),
+            bounded=f"{n_x} random concrete cases (engine validation, not a property obligation)"))
     return units
 
 
